@@ -288,6 +288,7 @@ def mon_init_barrier(case):
     delivered_in_gen = False
     rt_started, gen_fault, all_reg_step = False, False, None
     hold_cfg, held = set(), set()
+    arrived, init_reported, stuck_reported = set(), False, False   # liveness rule, see the end of the loop
     for i, (ws, obs, side) in enumerate(case["steps"]):
         es = entries(obs)
         if ws[0] == "beh":
@@ -310,6 +311,7 @@ def mon_init_barrier(case):
                 gen = g; execd = {}; registered = set(); asked = set(a for a in asked if False); delivered_in_gen = False
                 rt_started, gen_fault, all_reg_step = False, False, None
                 held = set()
+                arrived, init_reported, stuck_reported = set(), False, False
             if base == "runtime":
                 rt_started = True
             elif base in hold_cfg:
@@ -344,6 +346,23 @@ def mon_init_barrier(case):
             if missing and not delivered_in_gen:
                 out.append(f"step {i+1}: an invocation was delivered ({deliveries[0][:40]}) before {missing} had asked for their next event")
             delivered_in_gen = True
+        # "if all parties do arrive initialisation completes, whatever the arrival order": a first-event
+        # request that was not refused is an arrival; once the runtime and every registered extension of
+        # this generation have arrived and nothing has failed or been reported, the quiescent stack must
+        # have finished the init (its report line is out)
+        if any(e.startswith("ev initReport:") for e in es):
+            init_reported = True
+        if any(re.search(r"\.(initerror|exiterror|restoreerror)=2", e) for e in es):
+            gen_fault = True
+        if actor and ws[2] == "next" and actor in registered and not any(e.startswith(actor + ".next=4") for e in es):
+            arrived.add(actor)
+        if ws[0] == "rt" and ws[1] == "next" and rt_started and not any(e.startswith("rt.next=4") for e in es):
+            arrived.add("rt")
+        if (c.get("snapshot", "0") == "0" and rt_started and not gen_fault and not init_reported and not stuck_reported
+                and "rt" in arrived and registered and all(x in registered for x in execd) and all(x in arrived for x in registered)):
+            stuck_reported = True
+            out.append(f"step {i+1}: the runtime and every registered extension {sorted(registered)} of generation {gen} have asked for their next event and nothing has failed, "
+                       f"yet the initialisation has not completed (no init report; blocked: {obs.split('| blocked=')[-1].strip()})")
     return out
 
 
